@@ -113,6 +113,14 @@ def _cases(tier, seed):
             for tval, tdt in ((3, 'int64'), ([7], 'int64'), (3.0, 'float32'), ([0.1], 'float32')):
                 cs.append({'scen': 'tt_scalar', 's': {'op': op, 'N': N, 'R': R, 'dtype': 'float64', 'skind': 'tensor_concrete', 'tval': tval, 'tdtype': tdt}})
     cs.append({'scen': 'tt_scalar', 's': {'op': 'div', 'N': [2, 3], 'R': [1, 2, 1], 'dtype': 'complex128', 'skind': 'tensor_concrete', 'tval': 3, 'tdtype': 'int64'}})
+    # double-precision scalars (numpy float64, 0-d float64 tensor) on single-precision operands: a scalar does not promote the operand
+    for dt in ('float32', 'complex64'):
+        for op in ('add', 'sub', 'mul', 'div') + (('radd', 'rsub', 'rmul') if dt == 'float32' else ()):
+            if op not in ('radd', 'rsub', 'rmul'):
+                cs.append({'scen': 'tt_scalar', 's': {'op': op, 'N': [2, 3], 'R': [1, 2, 1], 'dtype': dt, 'skind': 'tensor_concrete', 'tval': 1.5, 'tdtype': 'float64'}})
+                cs.append({'scen': 'tt_scalar', 's': {'op': op, 'N': [2, 3], 'R': [1, 2, 1], 'dtype': dt, 'skind': 'npscalar', 'nptype': 'float64', 'cval': 1.5}})
+            else:
+                cs.append({'scen': 'tt_scalar', 's': {'op': op, 'N': [2, 3], 'R': [1, 2, 1], 'dtype': dt, 'skind': 'pyfloat', 'fval': 1.5}})
     for dt in ('complex128', 'float32'):
         for op in ('add', 'sub', 'mul', 'rmul', 'div', 'neg'):
             s = {'op': op, 'N': [2, 3], 'R': [1, 2, 1], 'dtype': dt, 'skind': 'float' if op != 'neg' else 'none'}
